@@ -199,6 +199,23 @@ func init() {
 			"v6 peers: bytes 3..14 fixed, so only prefixes/classes decided by the first bytes are exercised",
 		},
 	}
+	props["C12"] = PropSpec{
+		ID: "C12",
+		Runs: []HarnessRun{
+			{Rel: ".", Dir: "fiber", Entry: "VH_C12_roundtrip", Cases: tierCases([]int{0, 1, 2}, []int{0, 1, 2, 3}), Reach: []string{"roundtrip"}, MaxPaths: 100000},
+			{Rel: ".", Dir: "fiber", Entry: "VH_C12_hostile", Cases: tierCases([]int{1, 2, 3, 4}, []int{1, 2, 3, 4, 5, 6, 7}), Reach: []string{"malformed", "wellformed"}, MaxPaths: 200000},
+			{Rel: ".", Dir: "fiber", Entry: "VH_C12_exchange", Cases: tierCases([]int{1}, []int{1, 2}), Reach: []string{"exchange"}, MaxPaths: 100000},
+		},
+		Bounds: map[string]string{
+			"quick":    "round trip of 0..2 messages with symbolic key/value (length 0..2, all bytes), level and old-input flag into a dirty reused target; hostile cookie: every byte string of length 1..4 (minus ';', space, '\"') with an allocation budget of 64*len+512 bytes; issue/present/expire/absent exchange with 1 message at the fasthttp API level",
+			"thorough": "up to 3 messages, hostile cookies up to 7 bytes, exchange with 2 messages",
+		},
+		Assumptions: []string{
+			"the exchange harness hands the issued cookie value back through fasthttp's header API (no wire serialisation); wire-safety of the value is a separate assertion and a known finding (C12-K1)",
+			"flash parsing is invoked directly (RawHeaders is only filled by wire parsing)",
+			"WithInput (binder/reflection) is outside this harness",
+		},
+	}
 	props["SMOKEFAIL"] = PropSpec{
 		ID: "SMOKEFAIL",
 		Runs: []HarnessRun{
